@@ -6,7 +6,8 @@ package repository_test
 // pack size of 1000 bytes: 2–3 saver goroutines (synchronous SaveBlob and
 // asynchronous SaveBlobAsync, including a caller that returns from the upload
 // callback WITHOUT waiting for its callbacks) save blobs whose ciphertext sizes
-// straddle the pack size; pack/index uploads are gated backend operations; the
+// straddle the pack size (incompressible) or whose plaintext does while the
+// ciphertext is far smaller (compressible); pack/index uploads are gated backend operations; the
 // "sync" import of internal/repository{,/index,/pack} is replaced by the vsync
 // shim, so every mutex acquisition of a registered saver is a scheduling point.
 // crypto/rand is the deterministic stream, so the packer choice repeats.
@@ -68,7 +69,18 @@ type verifC44Exec struct {
 	restore  func()
 }
 
-func verifC44Blob(s verifC44Save) []byte { return oracle.LCG(s.seed, s.size) }
+// verifC44Blob: seeds >= 1000 give compressible content (the stored length is far below the plaintext
+// length: the packer's size decisions see the ciphertext, the caller the plaintext), others incompressible.
+func verifC44Blob(s verifC44Save) []byte {
+	if s.seed >= 1000 {
+		buf := make([]byte, s.size)
+		for i := range buf {
+			buf[i] = byte('a' + (uint64(i)/97+s.seed)%7)
+		}
+		return buf
+	}
+	return oracle.LCG(s.seed, s.size)
+}
 
 func TestVerif_C44(t *testing.T) {
 	r := vh.Start(t, "C44")
@@ -98,6 +110,11 @@ func TestVerif_C44(t *testing.T) {
 			"S1": {{"s1", D, 900, 12, false, false}},
 		}, nowait: []verifC44Save{{"a1", D, 500, 13, true, false}, {"a2", D, 990, 14, true, false}}},
 	}
+	// compressible blobs whose plaintext is at or above the pack size while their ciphertext is far below it
+	progs = append(progs, verifC44Prog{name: "compressible-oversized", savers: map[string][]verifC44Save{
+		"S1": {{"c1", D, 1500, 1001, false, false}, {"y", D, 300, 21, false, false}},
+		"S2": {{"c2", T, 2500, 1002, false, false}, {"c3", D, 1000, 1003, true, false}},
+	}})
 	if r.Thorough() {
 		progs = append(progs, verifC44Prog{name: "three-savers", savers: map[string][]verifC44Save{
 			"S1": {{"p", D, 999, 15, false, false}, {"q", D, 1000, 16, false, false}},
